@@ -72,6 +72,9 @@ void WorldQ::setup() {
   if (cf.has("percenthack")) k->put_file(home + "/control/percenthack", lines(cf["percenthack"]));
   for (const char *f : {"envnoathost", "bouncefrom", "bouncehost", "doublebounceto", "doublebouncehost"})
     if (cf.has(f)) k->put_file(home + "/control/" + f, cf[f].str() + "\n");
+  if (cf.has("bouncefrom")) bfrom = cf["bouncefrom"].str(); if (cf.has("bouncehost")) bhost = cf["bouncehost"].str();
+  if (cf.has("doublebounceto")) dbto = cf["doublebounceto"].str(); if (cf.has("doublebouncehost")) dbhost = cf["doublebouncehost"].str();
+  for (auto &l : cf["virtualdomains"].a) { std::string v = l.str(); size_t c = v.find(':'); if (c != std::string::npos) { std::string key = v.substr(0, c); for (auto &ch : key) ch = (char)tolower((unsigned char)ch); vdoms_ref[key] = v.substr(c + 1); } }
   conc[0] = (int)cf.geti("concurrencylocal", 10); conc[1] = (int)cf.geti("concurrencyremote", 20);
   if (cf.has("concurrencylocal")) k->put_file(home + "/control/concurrencylocal", std::to_string(conc[0]) + "\n");
   if (cf.has("concurrencyremote")) k->put_file(home + "/control/concurrencyremote", std::to_string(conc[1]) + "\n");
